@@ -410,6 +410,9 @@ pub struct StubLog {
     /// impossible and the checks over the recorded outcome are skipped for this operation
     #[serde(default)]
     pub foreign_callbacks: bool,
+    /// (x bits, y bits) received by callback k of this operation (first 1024 callbacks)
+    #[serde(default)]
+    pub seen: Vec<(u64, u64)>,
 }
 
 #[derive(Serialize, Deserialize, Clone, Debug, PartialEq)]
